@@ -11,9 +11,9 @@ import sched as S
 ID = "C15"
 LEAN_MODEL_TARGETS = ["drv_c15"]
 LEAN_PROOF_TARGETS = ["PyroProps.C15"]
-AUDIT_FILES = ["PyroModel/Lock.lean", "PyroModel/NsOps.lean", "PyroModel/Gen/C15.lean", "PyroProofs/Lock.lean",
+AUDIT_FILES = ["PyroModel/Lock.lean", "PyroModel/NsOps.lean", "PyroModel/Gen/C15.lean", "PyroModel/LockSkeleton.lean", "PyroProofs/Lock.lean",
                "PyroProps/C15.lean"]
-THEOREMS = ["Pyro.C15.C15_gen_shape_ok", "Pyro.C15.C15_linearizable", "Pyro.C15.C15_results_explained",
+THEOREMS = ["Pyro.C15.C15_gen_locked", "Pyro.C15.C15_source_every_access_locked", "Pyro.C15.C15_linearizable", "Pyro.C15.C15_results_explained",
             "Pyro.C15.C15_safe_register_once", "Pyro.C15.C15_remove_once", "Pyro.Lock.atomic", "Pyro.Lock.book"]
 SUITES = ["sequential", "interleaved"]
 RULE = ("(a) sequential histories of register/set_metadata/remove/remove-prefix/lookup/count/list on the real NameServer vs the "
@@ -29,54 +29,121 @@ TRUSTED = ["harness/sched.py (deterministic scheduler, instrumented RLock and st
 NAMES = ["a", "ab", "b", "Pyro.NameServer"]
 
 
+CONSUMERS = {"list", "dict", "set", "tuple", "sorted", "any", "all", "sum", "max", "min", "frozenset", "len", "next"}
+
+
+def lock_skeletons(cls):
+    """{public method name: Lean term of Pyro.LockSkeleton.Sk}: what each entry point of the class does to `self.lock`
+    and `self.storage`; calls of the class's own methods are inlined (depth <= 3), everything else is abstracted away"""
+    methods = {n.name: n for n in cls.body if isinstance(n, ast.FunctionDef)}
+
+    def seq(parts):
+        parts = [p for p in parts if p != ".nop"]
+        if not parts:
+            return ".nop"
+        out = parts[-1]
+        for p in reversed(parts[:-1]):
+            out = "(.seq %s %s)" % (p, out)
+        return out
+
+    def alt(parts):
+        uniq = []
+        for x in parts:
+            if x not in uniq:
+                uniq.append(x)
+        parts = uniq or [".nop"]
+        out = parts[-1]
+        for p in reversed(parts[:-1]):
+            out = "(.alt %s %s)" % (p, out)
+        return out
+
+    def is_lock(e):
+        return isinstance(e, ast.Attribute) and e.attr == "lock" and getattr(e.value, "id", None) == "self"
+
+    def expr(e, depth, deferred=False):
+        """accesses made by evaluating e"""
+        if e is None:
+            return ".nop"
+        if isinstance(e, ast.Attribute) and e.attr == "storage" and getattr(e.value, "id", None) == "self":
+            return ".deferred" if deferred else ".access"
+        if isinstance(e, (ast.Lambda, ast.GeneratorExp)):
+            # runs when the closure / generator is run: not here
+            return seq([expr(c, depth, True) for c in ast.iter_child_nodes(e)])
+        if isinstance(e, ast.comprehension):
+            return seq([expr(e.iter, depth, deferred), "(.star %s)" % seq([expr(i, depth, deferred) for i in e.ifs])])
+        if isinstance(e, (ast.ListComp, ast.SetComp, ast.DictComp)):
+            gens = [expr(g, depth, deferred) for g in e.generators]
+            elts = [expr(x, depth, deferred) for x in ([e.key, e.value] if isinstance(e, ast.DictComp) else [e.elt])]
+            return seq(gens + ["(.star %s)" % seq(elts)])
+        if isinstance(e, ast.Call):
+            f = e.func
+            parts = []
+            consumer = isinstance(f, ast.Name) and f.id in CONSUMERS or (isinstance(f, ast.Attribute) and f.attr == "join")
+            for a in list(e.args) + [k.value for k in e.keywords]:
+                if isinstance(a, ast.GeneratorExp) and consumer and not deferred:
+                    # consumed on the spot: the generator's body runs here, any number of times
+                    parts.append(seq([expr(g, depth, False) for g in a.generators] + ["(.star %s)" % expr(a.elt, depth, False)]))
+                else:
+                    parts.append(expr(a, depth, deferred))
+            if isinstance(f, ast.Attribute) and getattr(f.value, "id", None) == "self" and f.attr in methods:
+                if depth >= 3:
+                    return seq(parts + [".deferred"])          # too deep to follow: refuse
+                inner = stmts(methods[f.attr].body, depth + 1)
+                return seq(parts + [".deferred" if (deferred and ".access" in inner) else inner])
+            return seq([expr(f, depth, deferred)] + parts)
+        return seq([expr(c, depth, deferred) if isinstance(c, (ast.expr, ast.comprehension)) else ".nop" for c in ast.iter_child_nodes(e)])
+
+    def stmts(body, depth):
+        return seq([stmt(st, depth) for st in body])
+
+    def stmt(st, depth):
+        if isinstance(st, ast.With):
+            head = seq([expr(i.context_expr, depth) for i in st.items if not is_lock(i.context_expr)])
+            body = stmts(st.body, depth)
+            if any(is_lock(i.context_expr) for i in st.items):
+                body = "(.locked %s)" % body
+            return seq([head, body])
+        if isinstance(st, ast.If):
+            return seq([expr(st.test, depth), alt([stmts(st.body, depth), stmts(st.orelse, depth)])])
+        if isinstance(st, (ast.For, ast.While)):
+            head = expr(st.iter if isinstance(st, ast.For) else st.test, depth)
+            return seq([head, "(.star %s)" % seq([stmts(st.body, depth), head if isinstance(st, ast.While) else ".nop"]), stmts(st.orelse, depth)])
+        if isinstance(st, ast.Try):
+            return seq([stmts(st.body, depth), alt([".nop"] + [stmts(h.body, depth) for h in st.handlers]),
+                        stmts(st.orelse, depth), stmts(st.finalbody, depth)])
+        if isinstance(st, (ast.FunctionDef, ast.ClassDef)):
+            return seq([expr(c, depth, True) for c in ast.walk(st) if isinstance(c, ast.Attribute)])
+        return seq([expr(c, depth) for c in ast.iter_child_nodes(st) if isinstance(c, ast.expr)])
+
+    return {name: stmts(fn.body, 0) for name, fn in methods.items() if not name.startswith("_")}
+
+
 def extract():
     common.repo_on_path()
     from Pyro5 import nameserver
     src = open(nameserver.__file__).read()
     tree = ast.parse(src)
     cls = [n for n in tree.body if isinstance(n, ast.ClassDef) and n.name == "NameServer"][0]
-    shape = []
     lock_kind = "unknown"
     for fn in cls.body:
-        if not isinstance(fn, ast.FunctionDef):
-            continue
-        if fn.name == "__init__":
+        if isinstance(fn, ast.FunctionDef) and fn.name == "__init__":
             for node in ast.walk(fn):
                 if isinstance(node, ast.Assign) and any(isinstance(t, ast.Attribute) and t.attr == "lock" for t in node.targets):
                     if isinstance(node.value, ast.Call):
                         lock_kind = getattr(node.value.func, "attr", getattr(node.value.func, "id", "unknown"))
-            continue
-        inside = outside = 0
-
-        def visit(node, locked):
-            nonlocal inside, outside
-            if isinstance(node, ast.With):
-                is_lock = any(isinstance(i.context_expr, ast.Attribute) and i.context_expr.attr == "lock"
-                              and getattr(i.context_expr.value, "id", None) == "self" for i in node.items)
-                for i in node.items:
-                    visit(i.context_expr, locked)
-                for st in node.body:
-                    visit(st, locked or is_lock)
-                return
-            if isinstance(node, ast.Attribute) and node.attr == "storage" and getattr(node.value, "id", None) == "self":
-                if locked:
-                    inside += 1
-                else:
-                    outside += 1
-            for ch in ast.iter_child_nodes(node):
-                visit(ch, locked)
-        for st in fn.body:
-            visit(st, False)
-        if inside or outside:
-            shape.append((fn.name, inside, outside))
-    rows = ", ".join('("%s", %d, %d)' % r for r in shape)
+    sks = lock_skeletons(cls)
+    rows = ",\n  ".join('("%s", %s)' % (k, v) for k, v in sks.items())
     return f"""-- GENERATED by harness/props/c15.py from Pyro5/nameserver.py — do not edit
+import PyroModel.LockSkeleton
 namespace Pyro.Gen.C15
-/-- (method, accesses of self.storage lexically inside `with self.lock:`, accesses outside) -/
-def nsShape : List (String × Nat × Nat) := [{rows}]
+open Pyro.LockSkeleton
+/-- lock skeleton of every public method of NameServer (calls of its own helper methods inlined) -/
+def nsSkeletons : List (String × Sk) := [
+  {rows}]
 def lockKind : String := "{lock_kind}"
 end Pyro.Gen.C15
 """
+
 
 
 # ---- the intended map, written independently of the Lean model (reference for linearizability) -------
